@@ -289,65 +289,102 @@ def volumeIter (g : Gen σ α) (m : SimModel α) (vm : VolModel α) (times : Lis
 
 /-! ### DelayVolumeSSASimulator.delay_volume_simulate -/
 
-def delayVolumeIter (g : Gen σ α) (m : SimModel α) (vm : VolModel α) (times : List α)
-    (s : LoopState σ α) : LoopState σ α :=
-  let (x, p) := applyRules m.rules s.x s.p s.vol s.t m.dt s.ruleStep
-  let a := m.propensities .svol x p s.vol s.t
+/-- the scheduling half of one delay+volume iteration: rules (they see the current volume), volume-scaled
+propensities, the proposed reaction time, and the choice between the reaction (`step_type` 0, or 3 when no reaction can
+fire: only move to the requested time), the next volume tick (1) and the next queue time (2). -/
+structure DVDecision (σ α : Type) where
+  x : List α
+  p : List α
+  a : List α
+  Lambda : α
+  tNew : α
+  nextTick : α         -- `next_vol_time` after this iteration
+  stepType : Nat
+  rstep : Bool         -- `rule_step` for the next iteration: set by volume ticks only
+  gs : σ
+  log : List (Event α)
+
+/-- rules, propensities and the proposed time of the next reaction (the requested time when nothing can fire). -/
+structure DVProposal (σ α : Type) where
+  x : List α
+  p : List α
+  a : List α
+  Lambda : α
+  proposed : α
+  gs : σ
+  log : List (Event α)
+
+def dvPropose (g : Gen σ α) (m : SimModel α) (times : List α) (s : LoopState σ α) : DVProposal σ α :=
+  let xp := applyRules m.rules s.x s.p s.vol s.t m.dt s.ruleStep
+  let a := m.propensities .svol xp.1 xp.2 s.vol s.t
   let Lambda := arraySum a
   let Tcur := times.getD s.idx 0
-  let (proposed, rstep, gs, log1) :=
-    if feq Lambda 0 then (Tcur, false, s.g, s.log)
-    else
-      let (u, gs) := g s.g
-      (s.t + (-1 / Lambda * Transc.log u), false, gs, Event.wait u :: s.log)
+  let zero := feq Lambda 0
+  let ug := g s.g
+  { x := xp.1, p := xp.2, a := a, Lambda := Lambda,
+    proposed := if zero then Tcur else s.t + (-1 / Lambda * Transc.log ug.1),
+    gs := if zero then s.g else ug.2,
+    log := if zero then s.log else Event.wait ug.1 :: s.log }
+
+def dvDecide (g : Gen σ α) (m : SimModel α) (times : List α) (s : LoopState σ α) : DVDecision σ α :=
+  let pr := dvPropose g m times s
   let nextQ := s.q.next
-  -- step_type: 0 reaction, 1 volume, 2 delayed reaction, 3 move to the time point only
-  let (tNew, nextTick, stepType, rstep) :=
-    if proposed < s.nextTick ∧ proposed < nextQ then
-      (proposed, s.nextTick, (if Lambda > 0 then 0 else 3 : Nat), rstep)
-    else if s.nextTick < nextQ then (s.nextTick, s.nextTick + m.dt, 1, true)
-    else (nextQ, s.nextTick, 2, false)
-  let k := recordCount tNew (times.drop s.idx)
-  let rows := s.rows ++ replicateRow k x
+  let react := decide (pr.proposed < s.nextTick ∧ pr.proposed < nextQ)
+  let tick := !react && decide (s.nextTick < nextQ)
+  { x := pr.x, p := pr.p, a := pr.a, Lambda := pr.Lambda,
+    tNew := if react then pr.proposed else if tick then s.nextTick else nextQ,
+    nextTick := if tick then s.nextTick + m.dt else s.nextTick,
+    stepType := if react then (if pr.Lambda > 0 then 0 else 3) else if tick then 1 else 2,
+    rstep := tick, gs := pr.gs, log := pr.log }
+
+/-- the acting half: record rows and the volume trace, then fire / tick / deliver / do nothing. -/
+def dvApply (g : Gen σ α) (m : SimModel α) (vm : VolModel α) (times : List α) (s : LoopState σ α)
+    (d : DVDecision σ α) : LoopState σ α :=
+  let k := recordCount d.tNew (times.drop s.idx)
+  let rows := s.rows ++ replicateRow k d.x
   let volTrace := s.volTrace ++ List.replicate k s.vol
   let idx := s.idx + k
-  if stepType = 0 then
-    let (u, gs) := g gs
-    let choice := sampleDiscreteFrom a (u * Lambda)
+  if d.stepType = 0 then
+    let ug := g d.gs
+    let choice := sampleDiscreteFrom d.a (ug.1 * d.Lambda)
     if choice < 0 then
-      { s with x := x, p := p, t := tNew, idx := idx, ruleStep := rstep, rows := rows, volTrace := volTrace,
-               g := gs, nextTick := nextTick, bad := true, log := Event.choose u :: log1 }
+      { s with x := d.x, p := d.p, t := d.tNew, idx := idx, ruleStep := d.rstep, rows := rows, volTrace := volTrace,
+               g := ug.2, nextTick := d.nextTick, bad := true, log := Event.choose ug.1 :: d.log }
     else
       let j := choice.toNat
-      match computeDelay g m p j gs with
-      | none => { s with x := x, p := p, t := tNew, idx := idx, ruleStep := rstep, rows := rows,
-                         volTrace := volTrace, g := gs, nextTick := nextTick, bad := true }
+      match computeDelay g m d.p j ug.2 with
+      | none => { s with x := d.x, p := d.p, t := d.tNew, idx := idx, ruleStep := d.rstep, rows := rows,
+                         volTrace := volTrace, g := ug.2, nextTick := d.nextTick, bad := true }
       | some (delay, gs) =>
-        let x := addCol x (colOf m.U j)
+        let x := addCol d.x (colOf m.U j)
         if delay > 0 then
-          { s with x := x, p := p, t := tNew, idx := idx, ruleStep := rstep, rows := rows, volTrace := volTrace,
-                   g := gs, nextTick := nextTick, q := s.q.add (tNew + delay) j 1,
-                   log := Event.fire j tNew delay true :: Event.choose u :: log1 }
+          { s with x := x, p := d.p, t := d.tNew, idx := idx, ruleStep := d.rstep, rows := rows, volTrace := volTrace,
+                   g := gs, nextTick := d.nextTick, q := s.q.add (d.tNew + delay) j 1,
+                   log := Event.fire j d.tNew delay true :: Event.choose ug.1 :: d.log }
         else
-          { s with x := addCol x (colOf m.D j), p := p, t := tNew, idx := idx, ruleStep := rstep, rows := rows,
-                   volTrace := volTrace, g := gs, nextTick := nextTick,
-                   log := Event.fire j tNew delay false :: Event.choose u :: log1 }
-  else if stepType = 1 then
-    let vol := s.vol + vm.step x p tNew s.vol m.dt
-    let dv := vm.divided tNew vol m.dt
-    { s with x := x, p := p, t := tNew, idx := idx, ruleStep := rstep, rows := rows, volTrace := volTrace,
-             g := gs, vol := vol, nextTick := nextTick, divided := dv, stop := dv,
-             log := Event.tick tNew :: log1 }
-  else if stepType = 2 then
+          { s with x := addCol x (colOf m.D j), p := d.p, t := d.tNew, idx := idx, ruleStep := d.rstep, rows := rows,
+                   volTrace := volTrace, g := gs, nextTick := d.nextTick,
+                   log := Event.fire j d.tNew delay false :: Event.choose ug.1 :: d.log }
+  else if d.stepType = 1 then
+    let vol := s.vol + vm.step d.x d.p d.tNew s.vol m.dt
+    let dv := vm.divided d.tNew vol m.dt
+    { s with x := d.x, p := d.p, t := d.tNew, idx := idx, ruleStep := d.rstep, rows := rows, volTrace := volTrace,
+             g := d.gs, vol := vol, nextTick := d.nextTick, divided := dv, stop := dv,
+             log := Event.tick d.tNew :: d.log }
+  else if d.stepType = 2 then
     let amts := s.q.nextReactions
     let x := (List.range m.props.length).foldl
-      (fun x r => addScaledCol x (amts.getD r 0) (colOf m.D r)) x
-    { s with x := x, p := p, t := tNew, idx := idx, ruleStep := rstep, rows := rows, volTrace := volTrace,
-             g := gs, nextTick := nextTick, q := s.q.advance, log := Event.deliver tNew amts :: log1 }
+      (fun x r => addScaledCol x (amts.getD r 0) (colOf m.D r)) d.x
+    { s with x := x, p := d.p, t := d.tNew, idx := idx, ruleStep := d.rstep, rows := rows, volTrace := volTrace,
+             g := d.gs, nextTick := d.nextTick, q := s.q.advance, log := Event.deliver d.tNew amts :: d.log }
   else
     -- step_type 3: no reaction can fire, only move to the requested time point
-    { s with x := x, p := p, t := tNew, idx := idx, ruleStep := rstep, rows := rows, volTrace := volTrace,
-             g := gs, nextTick := nextTick, log := log1 }
+    { s with x := d.x, p := d.p, t := d.tNew, idx := idx, ruleStep := d.rstep, rows := rows, volTrace := volTrace,
+             g := d.gs, nextTick := d.nextTick, log := d.log }
+
+def delayVolumeIter (g : Gen σ α) (m : SimModel α) (vm : VolModel α) (times : List α)
+    (s : LoopState σ α) : LoopState σ α :=
+  dvApply g m vm times s (dvDecide g m times s)
 
 /-! ### Running a loop -/
 
